@@ -144,7 +144,7 @@ def prior_case(draw):
   name = draw(st.sampled_from(PRIOR_LEARNERS))
   desc = draw(gen.dataset_desc(dmax=6))
   desc['cond'] = draw(st.sampled_from([1, 10, 100, 1000, 10000]))     # covariance spectra over up to 8 decades
-  opt = draw(st.sampled_from(['identity', 'covariance', 'random', 'array', 'array-int', 'array-f32', 'array-singular', 'array-asym',
+  opt = draw(st.sampled_from(['identity', 'covariance', 'random', 'array', 'array-diagonal', 'array-int', 'array-f32', 'array-singular', 'array-asym',
                               'array-shape', 'array-indefinite', 'covariance-singular', 'bad-string']))
   return dict(kind='prior', est=name, desc=desc, opt=opt, seed=draw(st.integers(0, 10 ** 6)),
               aseed=draw(st.integers(0, 999)), cond=draw(st.sampled_from([1.0, 1e2, 1e4, 1e6])))
@@ -180,6 +180,8 @@ def check_prior(case, stats):
       arr = arr.copy()
       arr[j, :] = 0.0
       arr[:, j] = 0.0
+    elif opt == 'array-diagonal':
+      arr = np.diag(np.diag(arr))
     elif opt == 'array-int':
       # an integer-valued SPD matrix stored with an integer dtype (diagonally dominant)
       rsi = np.random.RandomState(case['aseed'])
